@@ -708,6 +708,45 @@ func rulePick(c *Ctx, rule string) {
 			}
 			okPass = all && len(call.Call.Args) == len(m.Params)-1
 		})
+		// exactly one attempt on exactly one tunnel: one pick and one forwarded call, neither in a loop, and the call's
+		// result returned as is (a retry on another tunnel would invoke the handler more than once)
+		nPick, nFwd, looped, returned := 0, 0, false, false
+		allInstrs(m, func(in ssa.Instruction) {
+			call, ok := in.(*ssa.Call)
+			if !ok {
+				return
+			}
+			if call.Call.IsInvoke() && (call.Call.Method.Name() == "Invoke" || call.Call.Method.Name() == "NewStream") {
+				nFwd++
+				if inLoop(call.Block()) {
+					looped = true
+				}
+				for _, r := range *call.Referrers() {
+					switch x := r.(type) {
+					case *ssa.Return:
+						returned = true
+					case *ssa.Extract:
+						for _, r2 := range *x.Referrers() {
+							if _, isRet := r2.(*ssa.Return); isRet {
+								returned = true
+							}
+						}
+					}
+				}
+				return
+			}
+			if !call.Call.IsInvoke() && staticCallee(call) == nil {
+				// dynamic call of the pick function field
+				if fr, _, isF := loadedField(call.Call.Value); isF && call.Call.Signature().Params().Len() == 0 && call.Call.Signature().Results().Len() == 1 {
+					_ = fr
+					nPick++
+					if inLoop(call.Block()) {
+						looped = true
+					}
+				}
+			}
+		})
+		c.check(nPick == 1 && nFwd == 1 && !looped && returned, rule, name+": one attempt on one tunnel", posOf(w, m), "one pick, one forwarded call, result returned as is", fmt.Sprintf("the pooled channel makes %d pick(s) and %d forwarded call(s) (in a loop: %v; result returned directly: %v): an RPC that is re-issued on another tunnel (retry, fail-over) enters the handler more than once", nPick, nFwd, looped, returned))
 		c.check(okPass, rule, name+": arguments passed through unchanged", posOf(w, m), "ch."+strings.TrimPrefix(name, "(multiChannel).")+"(ctx, …, opts...)", "the pooled channel does not pass its context, method and call options unchanged to the picked tunnel (WithTunnelChannel / metadata / deadlines would be lost)")
 	}
 }
@@ -1060,4 +1099,79 @@ func ruleKeyAsChannel(c *Ctx, rule string) {
 	})
 	c.floor(rule, n, 3, "functions of the per-key pooled channel (pick, ready, wait)")
 	// registries are never removed from the by-key map while handles may exist, or lookups are per call (above)
+}
+
+// ruleGetOrCreateAtomic (C12.10): the per-key registry is created at most once per key.
+func ruleGetOrCreateAtomic(c *Ctx, rule string) {
+	c.rule(rule, "get-or-create of the per-key registry is atomic: every insert into the by-key map is dominated by a failed lookup of the same key taken in the SAME critical section of the handler's mutex (write mode, no unlock in between) — a check under one lock acquisition and the insert under another lets two goroutines create two registries for one key, and a tunnel registered in the overwritten one is unreachable by key for good")
+	w := c.W
+	ro := w.Roles()
+	lf := w.Locks()
+	n := 0
+	for _, fn := range w.Funcs {
+		if isGenericTemplate(fn) {
+			continue
+		}
+		allInstrsLocal(fn, func(in ssa.Instruction) {
+			mu, ok := in.(*ssa.MapUpdate)
+			if !ok {
+				return
+			}
+			fr, _, isF := loadedField(mu.Map)
+			if !isF || fr.Field != ro.TSHByKey {
+				return
+			}
+			n++
+			key := "insert into " + fr.String() + " in " + w.Short(fn)
+			// the lookups of the same key that dominate the insert with a "not present" fact
+			var lk *ssa.Lookup
+			allInstrsLocal(fn, func(x ssa.Instruction) {
+				l, isL := x.(*ssa.Lookup)
+				if !isL || !dominates(l, mu) {
+					return
+				}
+				if f2, _, ok2 := loadedField(l.X); !ok2 || f2 != fr || origin(l.Index) != origin(mu.Key) {
+					return
+				}
+				if lk == nil || dominates(lk, l) {
+					lk = l // the latest one
+				}
+			})
+			if lk == nil {
+				c.fail(rule, key, w.At(mu), "the insert is not preceded by a lookup of the same key: an existing registry (with its tunnels) would be overwritten")
+				return
+			}
+			absent := false
+			for _, f := range factsAt(mu) {
+				x, op, y, okF := cmpFact(f)
+				if okF && op == token.EQL && isNilConst(y) && origin(x) == ssa.Value(lk) {
+					absent = true
+				}
+			}
+			for _, f := range boolFactsAt(mu) {
+				if ex, isEx := f.V.(*ssa.Extract); isEx && ex.Tuple == ssa.Value(lk) && ex.Index == 1 && !f.True {
+					absent = true
+				}
+			}
+			// one critical section: a write lock of the type's mutex held at both, and no unlock of it on a path between
+			var common string
+			for _, l := range lf.MustAt(mu).list() {
+				if !strings.HasSuffix(l, ":R") && lf.MustAt(lk).holds(l, false) {
+					common = l
+				}
+			}
+			unlockedBetween := false
+			allInstrsLocal(fn, func(x ssa.Instruction) {
+				ci, isC := x.(*ssa.Call)
+				if !isC {
+					return
+				}
+				if op, isOp := lockOpOf(ci); isOp && (op.kind == "unlock" || op.kind == "runlock") && op.id == common && reaches(lk, x) && reaches(x, mu) {
+					unlockedBetween = true
+				}
+			})
+			c.check(absent && common != "" && !unlockedBetween, rule, key, w.At(mu), "lookup at "+w.At(lk)+" found nothing; both under "+common+" without unlocking in between", "the insert is not in the same write-locked critical section as the lookup that found the key absent (lookup at "+w.At(lk)+", locks at the lookup "+lf.MustAt(lk).String()+", at the insert "+lf.MustAt(mu).String()+"): two goroutines can both miss and both insert, and the second insert orphans the registry the first tunnel was added to")
+		})
+	}
+	c.floor(rule, n, 1, "inserts into the by-key registry map")
 }
